@@ -198,6 +198,30 @@ def check_split_circuit(ctx):
     loops = [n for n in body_walk(fi.node) if isinstance(n, ast.For)]
     gb = [l for l in loops if isinstance(l.iter, ast.Call) and (dotted(l.iter.func) or "").split(".")[-1] == "groupby"]
     if len(gb) != 1:
+        # hand-written run splitting: a chunk list that is flushed whenever the flag flips. Every segment handed out must hold at
+        # least one operation -- an empty segment is an extra (empty) job for the native simulator, counted as a run
+        plain = [l for l in loops if norm(l.iter) == "circuit.operations"]
+        if len(plain) == 1:
+            d = Defs(fi.node)
+            loop = plain[0]
+            for y in [n for n in ast.walk(loop) if isinstance(n, ast.Yield)]:
+                v = y.value
+                circ = v.elts[1] if isinstance(v, ast.Tuple) and len(v.elts) == 2 else None
+                chunk = ops_expr(circ) if isinstance(circ, ast.Call) else None
+                if not isinstance(chunk, ast.Name):
+                    continue
+                starts_empty = any(isinstance(x, (ast.List,)) and not x.elts for x in d.defs.get(chunk.id, []) if isinstance(x, ast.AST))
+                guards = []
+                cur = y
+                parents = {ch: n for n in ast.walk(loop) for ch in ast.iter_child_nodes(n)}
+                while cur in parents:
+                    cur = parents[cur]
+                    if isinstance(cur, ast.If):
+                        guards.append(cur.test)
+                nonempty_guard = any(any(isinstance(x, ast.Name) and x.id == chunk.id for x in ast.walk(t)) for t in guards)
+                if starts_empty and not nonempty_guard:
+                    ctx.violation(R1, fi.key + ":no-empty-segment", f"`{short(v, 80)}` inside the loop hands out the chunk `{chunk.id}`, which starts empty, without testing that it holds an operation: when the first operation's flag differs from the initial flag, an empty leading segment is produced -- an extra empty circuit sent to the native simulator and counted as an executed job", f"{fi.module.relpath}:{y.lineno}")
+                    return
         ctx.undecided(R1, fi.key, "expected one loop over itertools.groupby", fi)
         return
     loop = gb[0]
